@@ -138,8 +138,10 @@ int scan_directory(fstree_t *fs, sqfs_dir_iterator_t *dir,
 	sqfs_dir_iterator_t *it, *hl;
 	int ret;
 
-	if (pf == NULL)
+	if (pf == NULL) {
+		perror("scanning directory");
 		return -1;
+	}
 
 	sqfs_object_init(pf, pf_destroy, NULL);
 	pf->src = sqfs_grab(dir);
@@ -155,8 +157,10 @@ int scan_directory(fstree_t *fs, sqfs_dir_iterator_t *dir,
 	if (detect_hardlinks) {
 		ret = sqfs_hard_link_filter_create(&hl, it);
 		sqfs_drop(it);
-		if (ret)
+		if (ret) {
+			sqfs_perror(NULL, "scanning directory", ret);
 			return -1;
+		}
 		it = hl;
 	}
 
